@@ -56,6 +56,9 @@ CHOL_C = 200.0         # inverse map, model vs numpy: |dtheta| <= 1e-10 + CHOL_C
 RT_C = 100.0           # oracle round trip: |theta' - theta| <= 1e-12 + RT_C * eps * cond_2(J)
 JUDGE_MAX = 1e-2       # a comparison whose tolerance exceeds this is classified ill-conditioned and not judged
 ERR_OK_COND = 1e-3     # LinAlgError / one-sided failure is accepted only when eps*kappa exceeds this
+# the compiler's mju_eig3 stops when the Jacobi rotation angle is < ~1.4e-6: eigenvalues are accurate to ~1e-12 but the frame
+# (iquat) only to ~1e-6, so R diag(I) R^T reproduces fullinertia to ~1e-6 relative (measured max 7e-7 on 2000 cases)
+COMPILE_REL = 1e-5
 EIG_C = 64.0           # eigenvalue sign tests allow -EIG_C*eps*lambda_max (accuracy of eigvalsh)
 
 
@@ -391,14 +394,14 @@ def oracle_compile(theta, o):
     trI = abs(pi[4]) + abs(pi[8]) + abs(pi[12])
     sc = [m] + [max(abs(v) for v in pi[1:4]) + 1e-300] * 3 + [trI] * 9
     devs["pi_back"] = max(abs(x - y) / s for x, y, s in zip(back, pi, sc))
-    if not devs["pi_back"] <= 1e-8:
+    if not devs["pi_back"] <= COMPILE_REL:
         bad.append(("c47:compiled-inertia", "pi_from_body after apply+compile differs from pi_from_theta by %.3g (relative to scale)" % devs["pi_back"]))
     I = sorted(o["inertia"])
     if not (I[0] > 0 and I[0] + I[1] >= I[2] * (1 - 1e-9)):
         bad.append(("c47:compiled-principal-moments", "compiled inertia %r" % (o["inertia"],)))
     if abs(o["child_mass"] - SPHERE_MASS) > 1e-9 * SPHERE_MASS:
         bad.append(("c47:child-body-changed", "child mass %r" % o["child_mass"]))
-    tol = 1e-9 + RT_C * 10 * EPS * cond
+    tol = 1e-9 + COMPILE_REL * cond
     if o.get("theta_back") is None:
         if EPS * cond <= ERR_OK_COND:
             bad.append(("c47:theta-back-linalgerror", "theta_inertia_from_body raised (cond %.3g)" % cond))
@@ -429,8 +432,8 @@ def run(ctx):
     rng = ctx.rng
     nfwd = 1000000 if thorough else 10000
     chunk = 100000
-    napply = 2000 if thorough else 150
-    ncompile = 2000 if thorough else 150
+    napply = 2000 if thorough else 400
+    ncompile = 2000 if thorough else 400
     dev = Dev()
     cmp_fail = []
     cmp = make_cmp(dev, cmp_fail)
@@ -541,7 +544,7 @@ def run(ctx):
         "inverse (theta', U)": "|dtheta| <= 1e-10 + %g*eps*kappa_F(U)^2; not judged when that exceeds %g" % (CHOL_C, JUDGE_MAX),
         "oracle round trip": "|theta'-theta| <= 1e-12 + %g*eps*cond_2(J); not judged above %g; LinAlgError accepted only if eps*cond > %g" % (RT_C, JUDGE_MAX, ERR_OK_COND),
         "oracle eigenvalues": "lambda_min >= -%g*eps*lambda_max always, > 0 strictly when eps*cond < 1e-3" % EIG_C,
-        "compile": "mass 1e-12, ipos 1e-9, pi_from_body vs pi_from_theta 1e-8 relative to scale, theta_inertia_from_body 1e-9 + %g*eps*cond" % (RT_C * 10),
+        "compile": "mass 1e-12, ipos 1e-9, pi_from_body vs pi_from_theta %g relative to scale (mju_eig3 frame accuracy ~1e-6), theta_inertia_from_body 1e-9 + %g*cond, judged below %g" % (COMPILE_REL, COMPILE_REL, JUDGE_MAX),
     }
     ctx.extra["max_deviation_over_tolerance"] = {k: float("%.3g" % v) for k, v in sorted(dev.max.items())}
     ctx.extra["compared_values"] = dev.n
